@@ -1076,6 +1076,10 @@ _F = 'chainables/io.py'
 _T = 'chainables/transform.py'
 _U = 'utils/iter_utils.py'
 VARIANTS = [
+    OK('skip-wrapper-yields-through-a-local', 'utils/iter_utils.py',
+       "      yield next(it)\n", "      value = next(it)\n      yield value\n"),
+    OK('sharded-iterable-restore-through-a-local', 'chainables/io.py',
+       "  def from_state(self, shard_state: ShardConfig) -> Self:\n    return dc.replace(self, _shard_state=shard_state)", "  def from_state(self, shard_state: ShardConfig) -> Self:\n    restored = dc.replace(self, _shard_state=shard_state)\n    return restored"),
     B('sharded-iterable-keeps-its-own-shard-on-restore', 'chainables/io.py',
       "  def from_state(self, shard_state: ShardConfig) -> Self:\n    return dc.replace(self, _shard_state=shard_state)",
       "  def from_state(self, shard_state: ShardConfig) -> Self:\n    if self._shard_state.num_shards > 1:\n      shard_state = dc.replace(self._shard_state, start_index=shard_state.start_index)\n    return dc.replace(self, _shard_state=shard_state)", 'R-C10-20'),
